@@ -8,16 +8,17 @@ from .. import env, core, par
 PID = "C18"
 LEVEL = "exploration"
 RULE = ("Hypothesis-generated sequences of 1..30 operations on one Module or one Bundle: setattr(name, value), add(value), "
-        "add(value, name=), re-adding an attribute under its own name, get(name), attribute read, and negative operations (reserved "
+        "add(value, name=), re-adding an attribute under its own name, assigning an already-held object under a second name, get(name), attribute read, and negative operations (reserved "
         "names, non-HDL values, delattr, sub-classing, add with both / neither name, additions after elaboration), names drawn from "
         "{a,b,c,d,e}, values of every attribute kind (signal, signal with a direction but no port visibility, each port direction, "
         "instance, array, instance bundle - of port-less cells - and bundle instance; for Bundles: signal, bundle instance). After "
         "every step: namespace == model; each per-kind view holds exactly the model's entries of its kind; get(), attribute access and "
         "the views return the same object; a signal is in `ports` iff it has port visibility; the object reports the module as parent; "
         "negative operations raise and change nothing. At the end the module is exported and must list exactly the model's signals, "
-        "ports and instances, and the same content defined class-style must export the same package. Non-trivial = a name re-used for "
+        "ports and instances, and the same content defined class-style - with underscore-named HDL and non-HDL temporaries in the class body - must have the same names and export the same package. Non-trivial = a name re-used for "
         "an object of another kind; distinct by canonical operation list.")
-ASSUME = ["every operation uses a fresh object (aliasing one object under two names is a designer error, not generated)",
+ASSUME = ["one object assigned under two names is generated (alias op) and must keep every per-name statement true, but what a module "
+          "still holding such an object (under two names, or under a name it no longer reports) at the end exports as is not asserted",
           "add(value, name='ports') style reserved names through add() and additions to a Bundle after 'elaboration' are recorded, not asserted"]
 
 NAMES = ["a", "b", "c", "d", "e"]
@@ -145,6 +146,14 @@ def run_case(case):
                 modelmap[name] = (kind, v)
                 if v.name != name:
                     out.append(("name_not_set", "object added as %r reports name %r" % (name, v.name)))
+            elif t == "alias":
+                src, dst = op[1], op[2]
+                if src in modelmap and src != dst:
+                    if dst in modelmap and modelmap[dst][0] != modelmap[src][0]:
+                        reused_other_kind = True
+                    setattr(obj, dst, modelmap[src][1])  # the same object under a second name (it now reports the name dst)
+                    modelmap[dst] = modelmap[src]
+                    notes.append("aliased")
             elif t == "readd":
                 name = op[1]
                 if name in modelmap:
@@ -186,6 +195,11 @@ def run_case(case):
         if len(out) > n0:
             return out, notes, reused_other_kind
     # final export and class-style equivalence
+    if len({id(o) for _k, o in modelmap.values()}) != len(modelmap) or any(o.name != k for k, (_kd, o) in modelmap.items()):
+        # an object is still held under two names, or under a name other than the one it reports (it was renamed by a second
+        # assignment): what such a module exports as is not stated anywhere
+        notes.append("final_phase_skipped_alias_left")
+        return out, notes, reused_other_kind
     if is_module:
         try:
             pkg = h.to_proto(obj)
@@ -244,7 +258,13 @@ def run_case(case):
             attrs = {}
             for k, (kind, o) in modelmap.items():
                 attrs[k] = mk.make(kind)
+            # underscore-named temporaries of a class body (HDL-valued or not) are documented not to become members
+            attrs["_tmp_sig"] = mk.make("signal")
+            attrs["_tmp_inst"] = mk.make("instance")
+            attrs["_tmp_n"] = 3
             cm = h.module(type("Edit", (), attrs))
+            if set(cm.namespace) != set(modelmap):
+                out.append(("class_style_namespace", "class-style module has names %s, expected %s" % (sorted(cm.namespace), sorted(modelmap))))
             cpkg = h.to_proto(cm)
             a, b = pkg.modules[-1], cpkg.modules[-1]
             if (sorted((s.name, s.width) for s in a.signals) != sorted((s.name, s.width) for s in b.signals)
@@ -258,7 +278,12 @@ def run_case(case):
         # Bundle: class-style equivalence of the final content, and use inside a module
         try:
             attrs = {k: mk.make(kind) for k, (kind, o) in modelmap.items()}
+            attrs["_tmp_sig"] = mk.make("signal")
+            attrs["_tmp_sub"] = mk.make("bsub")
+            attrs["_tmp_n"] = 3
             cb = h.bundle(type("EditB", (), attrs))
+            if set(cb.namespace) != set(modelmap):
+                out.append(("class_style_namespace", "class-style bundle has names %s, expected %s" % (sorted(cb.namespace), sorted(modelmap))))
             if set(cb.signals) != set(obj.signals) or set(cb.bundles) != set(obj.bundles):
                 out.append(("class_style_differs", "class-style bundle has %s/%s, procedural %s/%s" % (sorted(cb.signals), sorted(cb.bundles), sorted(obj.signals), sorted(obj.bundles))))
             m = h.Module(name="UsesB")
@@ -286,7 +311,7 @@ def batch_run(cases):
             continue
         for sig, detail in fails:
             res.fail(sig + ":" + c["target"], c, detail)
-        feats = [c["target"]] + sorted({"op_" + (op[0] if op[0] != "neg" else "neg_" + op[1]) for op in c["ops"]})
+        feats = [c["target"]] + sorted({"op_" + (op[0] if op[0] != "neg" else "neg_" + op[1]) for op in c["ops"]}) + sorted(set(notes))
         if reused:
             feats.append("name_reused_other_kind")
         res.case(c, reused, feats)
@@ -309,7 +334,7 @@ def shard(idx, n, tier):
             if target == "module" else ["signals", "bundles", "namespace"]
         pos = st.one_of(st.tuples(st.just("setattr"), name, kind), st.tuples(st.just("setattr"), name, kind),
                         st.tuples(st.just("add"), name, kind), st.tuples(st.just("add_name"), name, kind),
-                        st.tuples(st.just("readd"), name), st.tuples(st.just("get"), name))
+                        st.tuples(st.just("readd"), name), st.tuples(st.just("get"), name), st.tuples(st.just("alias"), name, name))
         neg = st.one_of(st.tuples(st.just("neg"), st.just("reserved"), st.sampled_from(banned)),
                         st.tuples(st.just("neg"), st.just("nonhdl"), st.sampled_from(["int", "str", "module", "list", "none", "extmod", "call"])),
                         st.tuples(st.just("neg"), st.just("nonhdl_add")),
